@@ -469,6 +469,8 @@ def run(chk, prog, tier):
     check_bookkeeping(chk, prog, env, model)
     check_claims_gate(chk, prog, env)
     check_parse_flags(chk, prog, env, model)
+    from props import c07
+    chk.guard('token parser flags', c07.check_loader_flags, chk, prog, model, rulename='C04.loader-flags', units=(UNIT,), allow_any=False)
     chk.assumptions += ['long/time_t arithmetic does not overflow (leeways <= 2^40, clock values < 2^62): a statement about values, not decided',
                         'jansson parses integers and compares object keys correctly (trusted)',
                         'the claims object read is the token\'s own: decided by C19 (snapshot/restore around the callback)']
